@@ -9,8 +9,19 @@ from concurrent.futures import ThreadPoolExecutor
 
 VERIF = os.path.dirname(os.path.dirname(os.path.abspath(__file__)))
 REPO = os.environ.get("VERIF_REPO", "/repo")
-COQ = os.path.join(VERIF, "coq")
 WORK = os.path.join(VERIF, "work")
+# VERIF_REPO=<scratch copy of the repository> runs a check against that copy without touching /repo and without
+# disturbing the build products, evidence or replays of the real run (used for mutation testing in parallel).
+ALT = os.path.realpath(REPO) != "/repo"
+if ALT:
+    ALTDIR = os.path.join(WORK, "alt-" + hashlib.sha1(os.path.realpath(REPO).encode()).hexdigest()[:10])
+    COQ = os.path.join(ALTDIR, "coq")
+    OUTDIR = ALTDIR
+else:
+    ALTDIR = None
+    COQ = os.path.join(VERIF, "coq")
+    OUTDIR = VERIF
+OCAML_BUILD = os.path.join(OUTDIR, "ocaml", "build") if not ALT else os.path.join(ALTDIR, "ocaml-build")
 GOENV = dict(os.environ, GOFLAGS="-mod=mod", GOPROXY="off", GOSUMDB="off", GOTOOLCHAIN="local",
              CGO_ENABLED=os.environ.get("CGO_ENABLED", "1"))
 NCPU = os.cpu_count() or 4
@@ -75,8 +86,16 @@ def coq_sources():
     return sorted(out)
 
 
+def alt_sync():
+    if not ALT:
+        return
+    os.makedirs(ALTDIR, exist_ok=True)
+    sh(["rsync", "-a", "--delete", "--exclude", "Generated/*.v", os.path.join(VERIF, "coq") + "/", COQ + "/"], timeout=600)
+
+
 def run_translator():
     """Regenerate coq/Generated/*.v from /repo's working tree. Returns (ok, log)."""
+    alt_sync()
     tdir = os.path.join(VERIF, "translator")
     if not os.path.exists(os.path.join(tdir, "main.go")):
         return True, "no translator"
@@ -166,7 +185,7 @@ def build_ocaml(pid):
     ml = os.path.join(COQ, low + "model.ml")
     drv = os.path.join(VERIF, "ocaml", low + "_run.ml")
     util = os.path.join(VERIF, "ocaml", "util.inc.ml")
-    bdir = os.path.join(VERIF, "ocaml", "build")
+    bdir = OCAML_BUILD
     os.makedirs(bdir, exist_ok=True)
     exe = os.path.join(bdir, low + "_run")
     if not (os.path.exists(ml) and os.path.exists(drv)):
@@ -185,9 +204,18 @@ def build_ocaml(pid):
 
 def build_harness(race=False):
     hdir = os.path.join(VERIF, "harness")
-    shutil.copyfile(os.path.join(REPO, "luahelper-lsp", "go.sum"), os.path.join(hdir, "go.sum"))
-    exe = os.path.join(hdir, "bin", "lhimpl_race" if race else "lhimpl")
-    cmd = ["go", "build", "-tags", "verif"] + (["-race"] if race else []) + ["-o", exe, "."]
+    name = "lhimpl_race" if race else "lhimpl"
+    if ALT:
+        modfile = os.path.join(ALTDIR, "go.mod")
+        gm = open(os.path.join(hdir, "go.mod")).read().replace("/repo/luahelper-lsp", os.path.join(os.path.realpath(REPO), "luahelper-lsp"))
+        write_if_changed(modfile, gm)
+        shutil.copyfile(os.path.join(REPO, "luahelper-lsp", "go.sum"), os.path.join(ALTDIR, "go.sum"))
+        exe = os.path.join(ALTDIR, name)
+        cmd = ["go", "build", "-modfile", modfile, "-tags", "verif"] + (["-race"] if race else []) + ["-o", exe, "."]
+    else:
+        shutil.copyfile(os.path.join(REPO, "luahelper-lsp", "go.sum"), os.path.join(hdir, "go.sum"))
+        exe = os.path.join(hdir, "bin", name)
+        cmd = ["go", "build", "-tags", "verif"] + (["-race"] if race else []) + ["-o", exe, "."]
     rc, out, _ = sh(cmd, cwd=hdir, env=GOENV, timeout=900)
     return rc == 0, out, exe
 
@@ -302,9 +330,12 @@ class Runner:
     # ---- build phase
     def build(self, coq_targets=None, need_model=True, need_race=False, ties=()):
         pid = self.pid
-        with Lock("build.lock"):
+        with Lock("build.lock" if not ALT else "build-" + os.path.basename(ALTDIR) + ".lock"):
             ok, out = run_translator()
-            if not ok:
+            self.translator_log = out[-3000:]
+            if not ok and "GENERATOR-FAILED" not in out:
+                # the translator itself could not be built/run; a single failed generator instead leaves a
+                # Generated file that does not compile, so only the ties/theorems that depend on it stop checking
                 self.build_problems.append(("translator", "translator", out[-3000:]))
             targets = ["Properties/%s.vo" % pid] + ["Tie/%s.vo" % t for t in ties]
             if need_model:
@@ -524,8 +555,8 @@ class Runner:
             self.search(legs, 90 if self.tier == "quick" else 600)
         if self.violations or broken:
             verdict = "violation"
-            os.makedirs(os.path.join(VERIF, "replays"), exist_ok=True)
-            replay_path = os.path.join(VERIF, "replays", "%s-%s-%d.json" % (pid, self.tier, self.seed))
+            os.makedirs(os.path.join(OUTDIR, "replays"), exist_ok=True)
+            replay_path = os.path.join(OUTDIR, "replays", "%s-%s-%d.json" % (pid, self.tier, self.seed))
             rep = {"property": pid, "tier": self.tier, "seed": self.seed, "no_longer_checks": broken}
             if self.violations:
                 v = self.violations[0]
@@ -569,8 +600,8 @@ class Runner:
             cov.update(extra_cov)
         ev = {"property_id": pid, "tier": self.tier, "seed": self.seed, "level": level, "coverage": cov,
               "assumptions": assumptions or [], "wall_s": wall, "violations": len(self.violations) + (1 if broken and not self.violations else 0)}
-        os.makedirs(os.path.join(VERIF, "evidence"), exist_ok=True)
-        json.dump(ev, open(os.path.join(VERIF, "evidence", pid + ".json"), "w"), indent=1)
+        os.makedirs(os.path.join(OUTDIR, "evidence"), exist_ok=True)
+        json.dump(ev, open(os.path.join(OUTDIR, "evidence", pid + ".json"), "w"), indent=1)
         for l in self.known_lines:
             print(l)
         for s in self.leg_stats:
